@@ -80,7 +80,7 @@ impl ReceiverLink {
 //@@ ret Result<ReceiverAttachExchange, ReceiverAttachError>
 //@@ subst `use self::source::VerifySource;` => `` rule=R6
 //@@ subst `self.source = Some(*remote_source);` => `self.source = Some(unbox(remote_source));` rule=R8
-//@@ subst `.map(|t| T::try_from(*t)) .transpose() .map_err(|_v0| ReceiverAttachError::CoordinatorIsNotImplemented)?` => `;let target = match target { Some(t) => match TargetS::try_from(unbox(t)) { Ok(t) => Some(t), Err(_e) => return Err(ReceiverAttachError::CoordinatorIsNotImplemented) }, None => None }` rule=R19
+//@@ subst `.map(|t| T::try_from(*t)) .transpose() .map_err(|_v0| ReceiverAttachError::CoordinatorIsNotImplemented)?` => `;let target = match target { Some(t) => match TargetS::try_from(unbox(t)) { Ok(t) => Some(t), Err(_e) => return Err(ReceiverAttachError::CoordinatorIsNotImplemented) }, None => None }` rule=R19 unless `\.map_err\(`
 //@@ subst `self.flow_state .as_ref() .initial_delivery_count_mut(|_v1| __E1);` => `self.flow_state.initial_delivery_count = __E1;` rule=R4
 //@@ subst `self.flow_state .as_ref() .delivery_count_mut(|_v2| __E1);` => `self.flow_state.delivery_count = __E1;` rule=R4
 //@@ subst `self.properties_mut(|local_properties| { local_properties .get_or_insert(OrderedMap::new()) .as_inner_mut() .extend(remote_properties.into_inner()); });` => `self.merge_properties(remote_properties);` rule=R9
@@ -135,7 +135,7 @@ impl SenderLink {
 //@@ orsplit
 //@@ ret Result<SenderAttachExchange, SenderAttachError>
 //@@ subst `use self::source::VerifySource;` => `` rule=R6
-//@@ subst `.map(|t| T::try_from(*t)) .transpose() .map_err(|_v0| SenderAttachError::CoordinatorIsNotImplemented)?` => `;let target = match target { Some(t) => match TargetS::try_from(unbox(t)) { Ok(t) => Some(t), Err(_e) => return Err(SenderAttachError::CoordinatorIsNotImplemented) }, None => None }` rule=R19
+//@@ subst `.map(|t| T::try_from(*t)) .transpose() .map_err(|_v0| SenderAttachError::CoordinatorIsNotImplemented)?` => `;let target = match target { Some(t) => match TargetS::try_from(unbox(t)) { Ok(t) => Some(t), Err(_e) => return Err(SenderAttachError::CoordinatorIsNotImplemented) }, None => None }` rule=R19 unless `\.map_err\(`
 //@@ subst `self.properties_mut(|local_properties| { local_properties .get_or_insert_with(Default::default) .as_inner_mut() .extend(remote_properties.into_inner()); })` => `self.merge_properties(remote_properties)` rule=R9
 //@@ spec
     ensures
